@@ -147,3 +147,11 @@ Definition w_v_nofrag := mk_rep "V300" "video" 90000 [okseg 0 3000 60; FNoFrag; 
 Lemma w_nofrag_left_out :
   served_ids (discover stored enc0 dec0 mode_scan (w_mpds [(false, w_a48)] [(false, w_v_nofrag)]) (fun _ _ => CAbsent)) = [].
 Proof. vm_compute. reflexivity. Qed.
+
+(** An MPD without a type attribute (mpd.Type == nil): loadAsset dereferences it, the start-up panics. *)
+Definition w_l6 : mpd_list :=
+  [("nt", "Manifest.mpd", MNoType [ {| as_has_template := true; as_ctype := "video"; as_reps := [(false, w_v300)] |} ])].
+Lemma w_no_type_panics :
+  match discover stored enc0 dec0 mode_scan w_l6 (fun _ _ => CAbsent) with Panic s => s | _ => "" end
+  = "loadAsset: invalid memory address or nil pointer dereference".
+Proof. vm_compute. reflexivity. Qed.
